@@ -168,6 +168,7 @@ Proof.
   unfold sv8_parse_int at 1. cbn [sv8_parse_int_loop].
   rewrite if_true by lia.
   replace (0 * 128 + (zlen SH + 3) mod 128 - 2 - (0 + 1)) with (7 + sv8_len samples + sv8_len silence) by lia.
+  rewrite (if_false (7 + sv8_len samples + sv8_len silence <? 0)) by lia.
   change (list_eqb [83; 72] key_SH) with true. cbv iota.
   unfold SH at 1. rewrite sv8_parse_sh_spec by assumption.
   cbn [s8_rg s8_tg s8_tp s8_ag s8_ap].
@@ -180,6 +181,7 @@ Proof.
   unfold sv8_parse_int at 1. cbn [sv8_parse_int_loop].
   change (12 / 128 =? 0) with true. cbv iota.
   change (0 * 128 + 12 mod 128 - 2 - (0 + 1)) with 9.
+  change (9 <? 0) with false. cbv iota.
   change (list_eqb [82; 71] key_SH) with false. change (list_eqb [82; 71] key_RG) with true. cbv iota.
   unfold RG at 1. rewrite sv8_parse_rg_spec by assumption.
   cbn [s8_sh s8_version s8_samples s8_rate s8_channels].
